@@ -10,10 +10,14 @@
 package c20
 
 import (
+	"bufio"
 	"context"
+	"crypto/tls"
+	"errors"
 	"fmt"
 	"io"
 	"log/slog"
+	"net"
 	"net/http"
 	"net/http/httptest"
 	"runtime"
@@ -49,6 +53,8 @@ type op struct {
 // reqSpec is what the client of request rid sends.  Every field embeds rid.
 type reqSpec struct {
 	rid    int
+	form   string // request-target form: origin, absolute, authority, asterisk, escaped
+	urlStr string // r.URL.String() of the client's request
 	method string
 	target string // request URI; contains an escape so that it differs from URL.Path
 	path   string
@@ -61,12 +67,32 @@ type reqSpec struct {
 
 var methods = []string{http.MethodGet, http.MethodPost, http.MethodPut, http.MethodDelete, http.MethodPatch}
 
-func mkSpec(rid int) reqSpec {
-	s := reqSpec{rid: rid}
+// targetForms are the request-target forms of RFC 9112 3.2 plus origin-form
+// targets a URL round trip could re-encode.
+var targetForms = []string{"origin", "absolute", "authority", "asterisk", "escaped"}
+
+func mkSpec(rid int) reqSpec { return mkSpecForm(rid, "origin") }
+
+// mkSpecForm builds the request of rid with the given target form.  path,
+// query and urlStr are filled in from the parsed request by newRequest for
+// everything but the origin form.
+func mkSpecForm(rid int, form string) reqSpec {
+	s := reqSpec{rid: rid, form: form}
 	s.method = methods[rid%len(methods)]
 	s.path = fmt.Sprintf("/r/%d/a b", rid)
 	s.query = fmt.Sprintf("id=%d&z=%%41", rid)
 	s.target = fmt.Sprintf("/r/%d/a%%20b?%s", rid, s.query)
+	s.urlStr = s.target
+	switch form {
+	case "absolute": // proxy-style request line
+		s.target = fmt.Sprintf("http://u%d.upstream.example/s/%d/p%%20q?q=%d", rid, rid, rid)
+	case "authority":
+		s.method, s.target = http.MethodConnect, fmt.Sprintf("c%d.example:443", rid)
+	case "asterisk":
+		s.method, s.target = http.MethodOptions, "*"
+	case "escaped":
+		s.target = fmt.Sprintf([]string{"/r/%d/a%%2Fb%%7e", "//double/%d/slash", "/r/%d?", "/r/%d/x;p=1?a=%%26&b"}[rid%4], rid)
+	}
 	s.host = fmt.Sprintf("h%d.example.org", rid)
 	s.raddr = fmt.Sprintf("10.%d.%d.%d:%d", (rid>>16)&255, (rid>>8)&255, rid&255, 1024+rid%50000)
 	s.hdrs = http.Header{
@@ -111,10 +137,18 @@ func raddrRid(s string) int {
 type ridBody struct {
 	r      *strings.Reader
 	closed bool
+	onEOF  func() // what net/http does when the body reaches EOF: fill the declared trailers
 }
 
-func (b *ridBody) Read(p []byte) (int, error) { return b.r.Read(p) }
-func (b *ridBody) Close() error               { b.closed = true; return nil }
+func (b *ridBody) Read(p []byte) (int, error) {
+	n, err := b.r.Read(p)
+	if err == io.EOF && b.onEOF != nil {
+		b.onEOF()
+		b.onEOF = nil
+	}
+	return n, err
+}
+func (b *ridBody) Close() error { b.closed = true; return nil }
 
 type ctxKey struct{}
 
@@ -147,6 +181,7 @@ type reqState struct {
 	ctx   context.Context // the client's context: carries this *reqState
 	body  *ridBody
 	rec   *clientRec
+	w     http.ResponseWriter // rec, or rec behind an http.Hijacker
 
 	phase       int // 0 new, 1 started seen, 2 in handler, 3 handler returned, 4 finished seen
 	finGatedFor *derived
@@ -207,16 +242,56 @@ func (c *clientRec) Write(b []byte) (int, error) {
 // setting the response's status (every 1xx but 101 Switching Protocols).
 func informational(c int) bool { return c >= 100 && c <= 199 && c != 101 }
 
+// Flush makes the client writer an http.Flusher (reached by
+// http.ResponseController through the wrapper's Unwrap).
+func (c *clientRec) Flush() {
+	c.e.gate("cw")
+	c.calls = append(c.calls, call{Op: "fl"})
+}
+
+var errHijack = errors.New("harness: hijack refused")
+
+// hijackRec is a client writer that is also an http.Hijacker; mode (from the
+// handler's script: 1 succeed, 2 fail) is set by the caller of Hijack.
+type hijackRec struct {
+	*clientRec
+	mode int
+	conn net.Conn
+}
+
+func (h *hijackRec) Hijack() (net.Conn, *bufio.ReadWriter, error) {
+	h.e.gate("cw")
+	h.calls = append(h.calls, call{Op: "hj", C: h.mode})
+	if h.mode != 1 {
+		return nil, nil, errHijack
+	}
+	if h.conn == nil {
+		h.conn, _ = net.Pipe()
+	}
+	return h.conn, bufio.NewReadWriter(bufio.NewReader(h.conn), bufio.NewWriter(h.conn)), nil
+}
+
+// recOf returns the client writer behind w (nil if w is something else).
+func recOf(w http.ResponseWriter) *clientRec {
+	switch c := w.(type) {
+	case *clientRec:
+		return c
+	case *hijackRec:
+		return c.clientRec
+	}
+	return nil
+}
+
 // status is what an HTTP client would see for the recorded calls (net/http:
 // informational headers do not count, the first WriteHeader with a final
 // code wins, a Write before that or the end of the handler means 200).
 // Mirrors LogMw!ClientStatus.
 func status(calls []call) int {
 	for _, c := range calls {
-		if c.Op == "w" {
+		switch {
+		case c.Op == "w" || c.Op == "fl": // a flush commits the header too
 			return http.StatusOK
-		}
-		if !informational(c.C) {
+		case c.Op == "wh" && !informational(c.C):
 			return c.C
 		}
 	}
@@ -256,6 +331,7 @@ type env struct {
 	mwOff  bool       // the middleware's level (Debug) is below the base handler's minimum (Info): no started / finished records, but the inner handler logs at Warn and its context logger must still carry the request's attributes
 	yield  bool       // free running: yield the processor at every gate to shuffle the requests
 	col    *collector // loopback mode: records are collected, not routed by context
+	forms  []string   // request-target form per slot (default: rotate by request id)
 
 	mu       sync.Mutex // anomalies only
 	unrouted int
@@ -291,11 +367,36 @@ func (e *env) probeLevel() slog.Level {
 }
 
 func (e *env) newRequest(slot, rid int, ops []op) (st *reqState, r *http.Request) {
-	st = &reqState{slot: slot, spec: mkSpec(rid), ops: ops, route: []int{1}}
+	form := targetForms[rid%len(targetForms)]
+	if slot >= 1 && slot <= len(e.forms) {
+		form = e.forms[slot-1]
+	}
+	st = &reqState{slot: slot, spec: mkSpecForm(rid, form), ops: ops, route: []int{1}}
 	st.body = &ridBody{r: strings.NewReader(st.spec.body)}
 	st.rec = &clientRec{e: e, owner: rid, hdr: http.Header{}}
+	st.w = st.rec
+	for _, o := range ops {
+		if o.Op == "hj" {
+			if o.C != 3 { // the client's writer is an http.Hijacker
+				st.w = &hijackRec{clientRec: st.rec}
+			}
+			break
+		}
+	}
 	st.ctx = context.WithValue(context.Background(), ctxKey{}, st)
 	r = httptest.NewRequest(st.spec.method, st.spec.target, st.body).WithContext(st.ctx)
+	if r.RequestURI != st.spec.target {
+		panic("harness: RequestURI of the built request is not the target")
+	}
+	if form != "origin" {
+		st.spec.path, st.spec.query, st.spec.urlStr = r.URL.Path, r.URL.RawQuery, r.URL.String()
+	}
+	// Declared trailers: net/http puts their values into THIS request's Trailer
+	// map when the body reaches EOF.
+	r.Trailer = http.Header{"X-Trailer": nil}
+	orig := r
+	st.body.onEOF = func() { orig.Trailer["X-Trailer"] = []string{"t-" + strconv.Itoa(rid)} }
+	r.TLS = &tls.ConnectionState{ServerName: st.spec.host}
 	r.ContentLength = int64(len(st.spec.body))
 	r.Host = st.spec.host
 	r.RemoteAddr = st.spec.raddr
@@ -466,6 +567,9 @@ func attrsRid(attrs []slog.Attr) int {
 		var r int
 		switch a.Key {
 		case "host", "request_uri":
+			if a.Value.String() == "*" {
+				continue // the asterisk form carries no id
+			}
 			r = ridOf(a.Value.String())
 		case "raddr":
 			r = raddrRid(a.Value.String())
@@ -512,6 +616,16 @@ func (e *env) inner(find func(r *http.Request) *reqState) http.Handler {
 			switch o.Op {
 			case "wh":
 				w.WriteHeader(o.C)
+			case "hj":
+				st.hijack(w, o.C)
+				if o.C == 3 {
+					continue // no Hijacker underneath: nothing reaches the client
+				}
+			case "fl":
+				c.C = 0
+				if err := http.NewResponseController(w).Flush(); err != nil {
+					st.problem("Flush through the wrapper failed: %v", err)
+				}
 			default:
 				c.C = 0
 				c.Data = fmt.Sprintf("data-%d-%d;", st.spec.rid, k)
@@ -535,6 +649,36 @@ func (e *env) inner(find func(r *http.Request) *reqState) http.Handler {
 	})
 }
 
+// hijack takes the connection over through the writer the handler was given
+// and checks the outcome against the client writer's script.
+func (st *reqState) hijack(w http.ResponseWriter, mode int) {
+	hr, _ := st.w.(*hijackRec)
+	if hr != nil {
+		hr.mode = mode
+	}
+	var conn net.Conn
+	var err error
+	if hj, ok := w.(http.Hijacker); ok && st.probes%2 == 0 {
+		conn, _, err = hj.Hijack() // the wrapper's own method ("older packages")
+	} else {
+		conn, _, err = http.NewResponseController(w).Hijack()
+	}
+	switch mode {
+	case 1:
+		if err != nil || hr == nil || conn != hr.conn {
+			st.problem("Hijack of request %d: got (%v, %v), its client's connection was expected", st.spec.rid, conn, err)
+		}
+	case 2:
+		if !errors.Is(err, errHijack) {
+			st.problem("Hijack of request %d: got error %v, its client refuses with %v", st.spec.rid, err, errHijack)
+		}
+	default:
+		if !errors.Is(err, http.ErrNotSupported) {
+			st.problem("Hijack of request %d without a Hijacker underneath: got error %v", st.spec.rid, err)
+		}
+	}
+}
+
 // observe re-reads everything property C20 lists and logs a probe through
 // the context logger.  ev names the trace event ("" = none).
 func (st *reqState) observe(e *env, ev string, w http.ResponseWriter, r *http.Request) {
@@ -550,13 +694,18 @@ func (st *reqState) observe(e *env, ev string, w http.ResponseWriter, r *http.Re
 		}
 	}
 	chk("method", r.Method, sp.method)
-	chk("URL", r.URL.String(), sp.target)
+	chk("URL", r.URL.String(), sp.urlStr)
 	chk("URL.Path", r.URL.Path, sp.path)
 	chk("URL.RawQuery", r.URL.RawQuery, sp.query)
 	chk("RequestURI", r.RequestURI, sp.target)
 	chk("Host", r.Host, sp.host)
 	chk("RemoteAddr", r.RemoteAddr, sp.raddr)
 	chk("ContentLength", strconv.FormatInt(r.ContentLength, 10), strconv.Itoa(len(sp.body)))
+	if r.TLS == nil {
+		chk("TLS", "none", sp.host)
+	} else {
+		chk("TLS.ServerName", r.TLS.ServerName, sp.host)
+	}
 	if len(r.Header) != len(sp.hdrs) {
 		chk("header count", strconv.Itoa(len(r.Header)), strconv.Itoa(len(sp.hdrs)))
 	}
@@ -573,6 +722,9 @@ func (st *reqState) observe(e *env, ev string, w http.ResponseWriter, r *http.Re
 			rest, _ := io.ReadAll(r.Body)
 			st.readSoFar = append(st.readSoFar, rest...)
 			chk("body", string(st.readSoFar), sp.body)
+			// The body is at EOF: the declared trailers have arrived on the
+			// client's request and must be visible here.
+			chk("trailer X-Trailer (after body EOF)", r.Trailer.Get("X-Trailer"), "t-"+strconv.Itoa(sp.rid))
 		} else {
 			n, _ = r.Body.Read(buf[:])
 			st.readSoFar = append(st.readSoFar, buf[:n]...)
@@ -594,7 +746,7 @@ func (st *reqState) observe(e *env, ev string, w http.ResponseWriter, r *http.Re
 	// The writer: the wrapper must lead to this request's client writer.
 	cl := -1
 	for cur, hops := w, 0; cur != nil && hops < 8; hops++ {
-		if c, _ := cur.(*clientRec); c != nil {
+		if c := recOf(cur); c != nil {
 			cl = c.owner
 			break
 		}
